@@ -5,6 +5,7 @@
    the site and the model itself (run on truncations of the base images) produces the input that is over-read. -/
 import JanetModel.Unmarsh.BytesSound
 import JanetModel.Unmarsh.BytesCfg
+import JanetModel.Unmarsh.PegSize
 namespace JanetModel.Unmarsh.BytesObligations
 open JanetModel.Unmarsh.Bytes
 
@@ -20,5 +21,17 @@ theorem unmarshal_total_inbounds (b : Array Nat) (fuel : Nat) :
 /-- `fuelBound cfg` (= 2054) levels of recursion suffice for every input: the model never answers `fuel` -/
 theorem unmarshal_terminates (b : Array Nat) (fuel : Nat) (hf : fuelBound cfg ≤ fuel) :
     ∀ a, unmarshal cfg b fuel ≠ .fuel ∧ unmarshal cfg b fuel ≠ .oob a := unmarshal_terminates_generic cfg sites_ok b fuel hf
+
+/-- the count check of `peg_unmarshal` is present in the current peg.c (hypothesis of `PegSize.peg_alloc_covers_writes`:
+    both counts ≤ INT32_MAX before the size computation) -/
+theorem peg_size_checked : cfg.pegSizeChecked = true := by decide
+
+/-- `asm`: every `return` of `janet_asm1` whose status is JANET_ASSEMBLE_OK lies behind `janet_verify(def) == 0` (the
+    failing branch does not return), nothing but flag bookkeeping follows the test, and there is such a return.  So whether
+    `asm` accepts a description is decided by `janet_verify`, and every def it hands to the VM satisfies the hypothesis
+    of `Props.C10.verify_sound`. -/
+theorem asm_ok_only_after_verify :
+    (JanetModel.Gen.UnmarshSites.asmReturns.all fun r => !r.1 || r.2) = true ∧
+    (JanetModel.Gen.UnmarshSites.asmReturns.any fun r => r.1) = true := by decide
 
 end JanetModel.Unmarsh.BytesObligations
